@@ -11,6 +11,7 @@ print(f"""You are helping to evaluate a verification harness for the open-source
 - Your private git worktree of the repository is `{wt}` (already created). Work ONLY inside it. Never read or write `/repo` or `/verif` (not even to look), and never commit anywhere.
 - Interpreter: `/venv/bin/python` (3.12; docutils 0.21.2, Sphinx 8.2.3, markdown-it-py 3.0.0, PyYAML are installed; `linkify-it-py` is NOT). No network.
 - `myst_parser` is editable-installed from another location, so ALWAYS run python with cwd = `{wt}` and `PYTHONPATH={wt}`, and confirm once with `cd {wt} && PYTHONPATH={wt} /venv/bin/python -c "import myst_parser; print(myst_parser.__file__)"` that the worktree copy is imported.
+- NEVER use `git stash` (the stash is shared between all worktrees of this repository and other people work in sibling worktrees): to set a change aside use `git diff > file`, `git checkout -- .`, `git apply file`. Before you finish, check that your patch.diff contains only your own hunks.
 - Test suite: `cd {wt} && PYTHONPATH={wt} /venv/bin/python -m pytest -q -p no:cacheprovider --timeout=900 --continue-on-collection-errors -x -q 2>&1 | tail -15` (about 15-40 s; drop `-x` to see all). On the UNCHANGED tree exactly 1076 tests pass and 8 always fail (they need linkify-it-py / an old fixture: the `linkify`, `gfm` and one `math` fixture cases). With your change the set of passing and failing tests must be IDENTICAL to the unchanged tree — run the whole suite without `-x` before and after and compare the summary lists.
 
 ## The property to break
